@@ -72,6 +72,10 @@ def hierarchy_strategy():
             for nm in names:
                 kind = draw(st.sampled_from(['attr', 'attr', 'method', 'method', 'method', 'property', 'classmethod', 'staticmethod', 'descriptor']))
                 assigns = draw(st.lists(st.sampled_from(ATTRS + ['x', 'y']), max_size=2, unique=True)) if kind == 'method' else []
+                if kind == 'property' and draw(st.booleans()):
+                    # the lazy-cache idiom: a getter that assigns through self (names no member of any class carries, so that the
+                    # assignment never meets a read-only property)
+                    assigns = draw(st.lists(st.sampled_from(['x', 'y', 'cache_' + nm]), min_size=1, max_size=2, unique=True))
                 # a method may first assign through another receiver (tmp.x = ...) before it assigns through self
                 foreign = kind == 'method' and bool(assigns) and draw(st.integers(0, 3)) == 0
                 members.append({'name': nm, 'kind': kind, 'assigns': assigns, 'foreign': foreign,
@@ -162,7 +166,7 @@ def render(h):
                     lines.append('        self.%s = %d' % (a, ci))
                 lines.append('        return None')
             elif k == 'property':
-                lines += ['    @property', '    def %s(self):' % nm, '        return %d' % ci]
+                lines += ['    @property', '    def %s(self):' % nm] + ['        self.%s = %d' % (a, ci) for a in mb['assigns']] + ['        return %d' % ci]
             elif k == 'classmethod':
                 lines += ['    @classmethod', '    def %s(cls):' % nm, '        return %d' % ci]
             elif k == 'staticmethod':
@@ -220,6 +224,9 @@ for c in spec:
             if type(raw).__name__ == 'function':
                 getattr(obj, n)()
                 called.append((n, ownerk.__module__, ownerk.__name__))
+            elif isinstance(raw, property):
+                getattr(obj, n)                 # a getter may assign through self
+                called.append((n, ownerk.__module__, ownerk.__name__))
         info['instance_dict'] = sorted(getattr(obj, '__dict__', {}))
         info['called'] = called
     except Exception as e:
@@ -268,6 +275,9 @@ def oracle_inprocess(root, spec):
                     ownerk = [k for k in mro if n in vars(k)][0]
                     if type(vars(ownerk)[n]).__name__ == 'function':
                         getattr(obj, n)()
+                        called.append((n, ownerk.__module__, ownerk.__name__))
+                    elif isinstance(vars(ownerk)[n], property):
+                        getattr(obj, n)             # a getter may assign through self (lazy-cache idiom)
                         called.append((n, ownerk.__module__, ownerk.__name__))
                 info['instance_dict'] = sorted(getattr(obj, '__dict__', {}))
                 info['called'] = called
